@@ -402,7 +402,9 @@ class Parser:
                 keyword = rule1.params[pos].name
                 break
 
-        # TODO, print warning if have a bogus keyword, e.g., S chip333
+        if keyword == '' and rule.pos is not None and len(fields) > rule.pos:
+            raise ValueError('Unknown keyword %s while parsing "%s"' %
+                             (fields[rule.pos], net))
 
         if (cpt_id == '' and parent is not None
                 and (cpt_type in ('A', 'W', 'O', 'P')) or self.allow_anon):
